@@ -190,3 +190,140 @@ Definition lifecycle_step (seen : option Z) (e : aev) : option (option Z) :=
   end.
 
 Definition c07_lifecycle (tr : list aev) : bool := accepts lifecycle_step None tr.
+
+(* ---------- C01 (client half): no caller ever observes another call's reply ----------
+   State: seqno of each of our calls (from its frame on the wire), responses the peer has sent (seqno, result nonce). *)
+Record xstate := mkX { x_seq_of : list (Z * Z); x_fed : list (Z * Z) }.
+
+Definition crosstalk_step (s : xstate) (e : aev) : option xstate :=
+  match e with
+  | AWrite fi | AWriteFail fi =>
+      if is_callk (fi_kind fi) then Some (mkX ((fi_nonce fi, fi_seq fi) :: x_seq_of s) (x_fed s)) else Some s
+  | AFeed fi _ =>
+      match fi_kind fi with
+      | KResp => Some (mkX (x_seq_of s) ((fi_seq fi, fi_nonce fi) :: x_fed s))
+      | _ => Some s
+      end
+  | AResult c r =>
+      match assocz c (x_seq_of s) with
+      | Some q => if existsb (fun p => (fst p =? q) && (snd p =? r)) (x_fed s) then Some s else None
+      | None => None                 (* a result without its call ever having been written *)
+      end
+  | _ => Some s
+  end.
+
+Definition c01_no_crosstalk (tr : list aev) : bool := accepts crosstalk_step (mkX [] []) tr.
+
+(* ---------- C01 (serving half): each delivered request is invoked exactly once; each handler that returns on a live
+   transport, not cancelled, is answered exactly once (evaluated at quiescence) ---------- *)
+Fixpoint count_ev (p : aev -> bool) (tr : list aev) : nat :=
+  match tr with [] => O | e :: r => (if p e then 1 else 0) + count_ev p r end.
+
+Definition invoked_for (n : Z) (e : aev) : bool :=
+  match e with AHStart _ fi => fi_nonce fi =? n | _ => false end.
+
+Definition replied_to (q n : Z) (e : aev) : bool :=
+  match e with
+  | AWrite fi | AWriteFail fi => match fi_kind fi with KResp => (fi_seq fi =? q) && (fi_nonce fi =? n) | _ => false end
+  | _ => false
+  end.
+
+Definition any_reply_to (q : Z) (e : aev) : bool :=
+  match e with
+  | AWrite fi | AWriteFail fi => match fi_kind fi with KResp => fi_seq fi =? q | _ => false end
+  | _ => false
+  end.
+
+(* requests fed for registered methods, in order *)
+Definition fed_requests (tr : list aev) : list frame_info :=
+  flat_map (fun e => match e with
+                     | AFeed fi true => match fi_kind fi with KCall | KCallC | KNotify => [fi] | _ => [] end
+                     | _ => []
+                     end) tr.
+
+Definition c01_invoked_once (tr : list aev) : bool :=
+  forallb (fun fi => Nat.eqb (count_ev (invoked_for (fi_nonce fi)) tr) 1) (fed_requests tr).
+
+Definition c01_never_twice (tr : list aev) : bool :=
+  forallb (fun fi => Nat.leb (count_ev (invoked_for (fi_nonce fi)) tr) 1 &&
+                     (if is_callk (fi_kind fi) then Nat.leb (count_ev (any_reply_to (fi_seq fi)) tr) 1 else true))
+          (fed_requests tr).
+
+(* ---------- C12: the result buffer is never written after the call returned ---------- *)
+Definition c12_pred (tr : list aev) : bool :=
+  forallb (fun e => match e with ABuf _ false => false | _ => true end) tr.
+
+(* ---------- C08: cancellation ends the call with the context's error and a cancel frame follows the call frame ----
+   Evaluated on a trace that ends at quiescence with the transport still up.  For every call whose context ended:
+   it returned; with the context's error unless its reply had been fed before it returned; and if it returned the
+   context's error and its call frame was written, a cancel frame with the same seqno was written after it. *)
+Fixpoint index_where (p : aev -> bool) (tr : list aev) (i : nat) : option nat :=
+  match tr with [] => None | e :: r => if p e then Some i else index_where p r (S i) end.
+
+Definition is_ret_of (c : Z) (e : aev) : bool := match e with ARet d _ => d =? c | _ => false end.
+Definition ret_class (c : Z) (tr : list aev) : option rclass :=
+  match filter (is_ret_of c) tr with ARet _ r :: _ => Some r | _ => None end.
+Definition call_write_of (c : Z) (e : aev) : bool :=
+  match e with AWrite fi => is_callk (fi_kind fi) && (fi_nonce fi =? c) | _ => false end.
+Definition cancel_write_of (q : Z) (e : aev) : bool :=
+  match e with AWrite fi => match fi_kind fi with KCancel => fi_seq fi =? q | _ => false end | _ => false end.
+Definition seq_of_call (c : Z) (tr : list aev) : option Z :=
+  match filter (call_write_of c) tr with AWrite fi :: _ => Some (fi_seq fi) | _ => None end.
+Definition resp_fed_for (q : Z) (e : aev) : bool :=
+  match e with AFeed fi _ => match fi_kind fi with KResp => fi_seq fi =? q | _ => false end | _ => false end.
+
+Definition cancelled_ops (tr : list aev) : list Z :=
+  flat_map (fun e => match e with ACtx c => [c] | _ => [] end) tr.
+
+Definition c08_one (tr : list aev) (c : Z) : bool :=
+  match ret_class c tr with
+  | None => false                                          (* never returned *)
+  | Some r =>
+      let reply_before_ret :=
+          match seq_of_call c tr, index_where (is_ret_of c) tr 0 with
+          | Some q, Some ir => match index_where (resp_fed_for q) tr 0 with Some ifd => Nat.ltb ifd ir | None => false end
+          | _, _ => false
+          end in
+      let class_ok := match r with
+                      | RCtx => true
+                      | ROk | RAppErr => reply_before_ret
+                      | RTooBig => true                   (* refused before anything was sent *)
+                      | _ => false
+                      end in
+      let cancel_ok := match r, seq_of_call c tr with
+                       | RCtx, Some q =>
+                           match index_where (call_write_of c) tr 0, index_where (cancel_write_of q) tr 0 with
+                           | Some iw, Some ic => Nat.ltb iw ic
+                           | _, _ => false
+                           end
+                       | _, _ => true
+                       end in
+      class_ok && cancel_ok
+  end.
+
+Definition c08_pred (tr : list aev) : bool := forallb (c08_one tr) (cancelled_ops tr).
+
+(* serving side: a cancellation for a call whose handler is running reaches it (evaluated at quiescence) *)
+Definition c08_reaches_handler (tr : list aev) : bool :=
+  match run handler_step h0 tr with
+  | Some s => forallb (fun p => if is_callk (fi_kind (snd p)) && memz (fi_seq (snd p)) (h_peer_cancelled s)
+                                then memz (fst p) (h_cancelled s) else true) (h_running s)
+  | None => true
+  end.
+
+(* ---------- C20: each RPC is accounted exactly once, under its tag, with its wire size ----------
+   [sizes] : for every operation (nonce) the sizes the record may carry: len(own frame), and len(own frame) + payload
+   length of the matching peer frame.  Evaluated at quiescence. *)
+Definition records_of (k : fkind) (n : Z) (tr : list aev) : list Z :=
+  flat_map (fun e => match e with ARecord k' n' sz => if fkind_eqb k k' && (n =? n') then [sz] else [] | _ => [] end) tr.
+
+Definition c20_one (tr : list aev) (want : fkind * Z * list Z) : bool :=
+  match want with
+  | (k, n, sizes) =>
+      match records_of k n tr with
+      | [sz] => memz sz sizes
+      | _ => false
+      end
+  end.
+
+Definition c20_pred (wants : list (fkind * Z * list Z)) (tr : list aev) : bool := forallb (c20_one tr) wants.
